@@ -431,6 +431,76 @@ def block_pairs(seed, n, legacy=False):
     return pairs
 
 
+COLLISION_TYPES = [("string", "string"), ("varint", "string[]"), ("float", "net.ipaddress"), ("boolean", "datetime"),
+                   ("bytes", "path"), ("command", "digest"), ("dictlist", "command[]"), ("uint16", "record"), ("datetime", "varint")]
+
+
+def collision_descriptors():
+    """pairs of DIFFERENT descriptors (same name, same field types in the same order, other field names) whose
+    identifiers coincide by construction: the hash input name + n1 + t1 + n2 + t2 has no separators, so
+    [(T1, a), (T2, b<T1>c)] and [(T1, a<T1>b), (T2, c)] feed the same text to the digest"""
+    from flow.record import RecordDescriptor
+    out = []
+    for t1, t2 in COLLISION_TYPES:
+        da = RecordDescriptor("col/x", [(t1, "a"), (t2, "b%sc" % t1)])
+        db = RecordDescriptor("col/x", [(t1, "a%sb" % t1), (t2, "c")])
+        out.append((t1, t2, da, db))
+    return out
+
+
+def collision_records():
+    """records of such descriptor pairs holding the SAME values (so their packed values coincide), with equal and with
+    different _generated (the latter are equal only if something ignores both the descriptor and _generated)"""
+    from vf import recgen
+    rnd = random.Random(4242)
+    g = recgen.Gen(rnd)
+    out = []
+    for t1, t2, da, db in collision_descriptors():
+        for k in range(2):
+            try:
+                v1, v2 = g.value(t1, 1), g.value(t2, 1)
+                ts2 = T0 if k == 0 else T0.replace(year=2001)
+                ra = da.recordType(v1, v2, _source="s", _classification=None, _generated=T0)
+                rb = db.recordType(v1, v2, _source="s", _classification=None, _generated=ts2)
+            except Exception:  # noqa  (a drawn value the type refuses)
+                continue
+            out.append(("%s+%s-%d" % (t1, t2.replace("[]", "list").replace(".", "_"), k), ra, rb))
+    return out
+
+
+def descriptor_probe(on_bad):
+    """behavioural cross-check of what the translator reads off RecordDescriptor.__eq__: descriptor equality on
+    constructed pairs -- colliding identifiers, same name with other fields, equal definitions built twice"""
+    from flow.record import RecordDescriptor
+    probes = []
+    for t1, t2, da, db in collision_descriptors():
+        probes.append(("colliding identifiers", da, db, False))
+        probes.append(("equal definitions built twice", da, RecordDescriptor("col/x", [(t1, "a"), (t2, "b%sc" % t1)]), True))
+    base_fields = [("string", "a"), ("varint", "b")]
+    d0 = RecordDescriptor("probe/d", base_fields)
+    probes += [
+        ("equal definitions built twice", d0, RecordDescriptor("probe/d", list(base_fields)), True),
+        ("other name", d0, RecordDescriptor("probe/e", base_fields), False),
+        ("other field name", d0, RecordDescriptor("probe/d", [("string", "a"), ("varint", "c")]), False),
+        ("other field type", d0, RecordDescriptor("probe/d", [("string", "a"), ("uint32", "b")]), False),
+        ("fields reordered", d0, RecordDescriptor("probe/d", base_fields[::-1]), False),
+        ("one field more", d0, RecordDescriptor("probe/d", base_fields + [("string", "c")]), False),
+        ("no fields", d0, RecordDescriptor("probe/d", []), False),
+    ]
+    for what, a, b, want in probes:
+        for x, y in ((a, b), (b, a)):
+            o_eq, o_ne = outcome(lambda: x == y), outcome(lambda: x != y)
+            o_h = outcome(lambda: hash(x) == hash(y))
+            ok = o_eq == ("val", want) and o_ne == ("val", not want) and (not want or o_h == ("val", True))
+            if not ok:
+                on_bad("descriptor equality (%s): %s%r == %s%r is %s, != is %s, equal hashes %s; expected == to be %s" % (
+                    what, x.name, tuple(x.get_field_tuples()), y.name, tuple(y.get_field_tuples()), o_eq[1:], o_ne[1:], o_h[1:], want),
+                    False, dict(kind="descriptor", what=what, a=[x.name, list(map(list, x.get_field_tuples()))],
+                                b=[y.name, list(map(list, y.get_field_tuples()))], expected=want))
+                return
+    return len(probes) * 2
+
+
 def special_pairs():
     """hand-picked pairs around the edges of Python's == (name, x, y)"""
     import zoneinfo
@@ -487,7 +557,7 @@ def special_pairs():
     # two DIFFERENT descriptors with the same identifier (name, 32-bit hash): records of them are unequal
     D1 = RecordDescriptor("t/c", [("stringlist", "a"), ("string", "b")])
     D2 = RecordDescriptor("t/c", [("string", "a"), ("string", "listb")])
-    assert D1.identifier == D2.identifier and D1 != D2
+    assert D1.identifier == D2.identifier and D1.get_field_tuples() != D2.get_field_tuples()
     N = RecordDescriptor("sp/n", [("record", "r"), ("record[]", "rs")])
     c1, c2 = D1(b="y", _generated=T0), D2(listb="y", _generated=T0)
     out.append(("identifier-coincidence", c1, c2))
@@ -497,6 +567,11 @@ def special_pairs():
     out.append(("identifier-coincidence-grouped", GroupedRecord("g", [c1]), GroupedRecord("g", [c2])))
     out.append(("identifier-coincidence-grouped-reversed", GroupedRecord("g", [c2, c1]), GroupedRecord("g", [c1, c1])))
     out.append(("identifier-coincidence-group-vs-plain", GroupedRecord("t/c", [c1]), c2))
+    for nm, ra, rb in collision_records():
+        out.append(("collision-%s" % nm, ra, rb))
+        out.append(("collision-%s-reversed" % nm, rb, ra))
+        out.append(("collision-%s-nested" % nm, N(r=ra, rs=[rb, ra], _generated=T0), N(r=rb, rs=[ra, ra], _generated=T0)))
+        out.append(("collision-%s-grouped" % nm, GroupedRecord("g", [c1, ra]), GroupedRecord("g", [c1, rb])))
     out.append(("nested-differs-deep", N(r=F(f=1.0, fl=[2.0], _generated=T0), rs=[F(f=1.0, fl=[2.0], _generated=T0)], _generated=T0),
                 N(r=F(f=1.0, fl=[2.0], _generated=T0), rs=[F(f=1.0, fl=[2.5], _generated=T0)], _generated=T0)))
     return [(n, x, x if y is None else y) for n, x, y in out]
@@ -809,6 +884,12 @@ class Reporter:
 def python_level(ctx, rep, shards, n_blocks, block_n):
     rnd = random.Random(ctx.seed)
     total = 0
+    n = descriptor_probe(rep)
+    if rep.reported:
+        # keep going a little: a record pair makes the consequence concrete, but the descriptor pair already is an input
+        return total
+    for _ in range(n or 0):
+        ctx.count_case(("descriptor-probe", _), nontrivial=True)
     sp = special_pairs()
     total += run_pairs(ctx, [("special:" + n, x, y) for n, x, y in sp], rnd, rep, shards)
     for b in range(n_blocks):
@@ -843,7 +924,7 @@ def run(ctx):
         "variations (declared, reserved, inside a nested record, inside a group member), with the same values under "
         "another descriptor (name / field name / field type / extra field), with another item, with a non-record, group "
         "vs member / renamed / shortened / reordered / re-grouped; plus hand-picked edge pairs (NaN, signed zeros, "
-        "int/float/bool, dict key order, dicts with keys of different types (plain, nested, grouped), time zones and fold, path/command/digest/ip forms, two descriptors sharing (name, hash) -- plain, nested, grouped, both directions).  "
+        "int/float/bool, dict key order, dicts with keys of different types (plain, nested, grouped), time zones and fold, path/command/digest/ip forms, two descriptors sharing (name, hash) -- plain, nested, grouped, both directions; descriptor pairs whose identifiers collide by construction for 9 type combinations, holding the same values).  "
         "Configurations: {}, {_generated}, one declared field, several declared+reserved, an unknown name; installed by "
         "set_ignored_fields_for_comparison, the context manager (normal exit, exit by exception, nested, body that sets "
         "again) and the environment variable in a fresh interpreter.  distinct = distinct (pair kind, shapes of x and y, "
@@ -928,5 +1009,12 @@ def replay(obj):
         print("replay %s under ignore=%s via %s -> %s" % (k, sorted(cfg), obj["mechanism"], {a: b[:2] for a, b in o.items()}))
         print("property %s" % ("HOLDS on this case" if not bad else "FAILS: " + bad[0]))
         return 0 if not bad else 1
+    if kind == "descriptor":
+        from flow.record import RecordDescriptor
+        a = RecordDescriptor(obj["a"][0], [tuple(f) for f in obj["a"][1]])
+        b = RecordDescriptor(obj["b"][0], [tuple(f) for f in obj["b"][1]])
+        got = outcome(lambda: a == b)
+        print("replay descriptor equality (%s): %r == %r -> %s, expected %s" % (obj.get("what"), obj["a"], obj["b"], got[1:], obj["expected"]))
+        return 0 if got == ("val", obj["expected"]) else 1
     print("replay of kind %s: re-run ./check C12" % kind)
     return 2
